@@ -11,7 +11,9 @@ import Mathlib.Tactic.LinearCombination
 /-!
 # Invariants of IMEX time stepping — the generic layer of C11
 
-A *frame* is a set `S` of states closed under the operations the integrators use (`+`, `•`, `0`)
+A *frame* is a set `S` of tendencies closed under the operations the integrators use (`+`, `•`,
+`0`), a set `P ⊆ S` of proper states with `P + S ⊆ P` (for a module: `P = S`; for the executable
+`tree_math` vectors `P` excludes the Python scalar `0`, to which no equation is ever applied),
 together with an observable `obs : V → W` that is additive and homogeneous on `S`.  Nothing is
 assumed about the state space `V` itself (only the operations `+`, `•`, `0` that the model
 `Dino.Imex` uses), so the same lemmas apply to a `K`-module with a submodule and a linear map
@@ -25,11 +27,16 @@ through.  Then for every integrator of `Dino.Imex` one step maps `S → S` and a
 namespace Dino.Invariants
 open Dino.Imex
 
-/-- a set of states closed under `+`, `•`, `0` with an observable that is linear on it -/
+/-- a set of tendencies closed under `+`, `•`, `0`, the proper states among them, and an observable
+ that is linear on it -/
 structure Frame (K V W : Type) [Field K] [Add V] [Zero V] [SMul K V] [AddCommGroup W]
     [Module K W] where
   S : V → Prop
+  P : V → Prop
   obs : V → W
+  P_S : ∀ {x}, P x → S x
+  P_add : ∀ {x y}, P x → S y → P (x + y)
+  P_smul : ∀ (c : K) {x}, P x → P (c • x)
   zero_mem : S 0
   add_mem : ∀ {x y}, S x → S y → S (x + y)
   smul_mem : ∀ (c : K) {x}, S x → S (c • x)
@@ -44,7 +51,11 @@ variable {K V W : Type} [Field K] [AddCommGroup W] [Module K W]
 def Frame.ofLinear [AddCommGroup V] [Module K V] (S : Submodule K V) (ℓ : V →ₗ[K] W) :
     Frame K V W where
   S := fun x => x ∈ S
+  P := fun x => x ∈ S
   obs := ℓ
+  P_S := fun h => h
+  P_add := S.add_mem
+  P_smul := fun c _ hx => S.smul_mem c hx
   zero_mem := S.zero_mem
   add_mem := S.add_mem
   smul_mem := fun c _ hx => S.smul_mem c hx
@@ -58,8 +69,8 @@ variable (fr : Frame K V W) (c : W)
 /-- `y` is a tendency in `S` whose observable is `σ • c` -/
 def Tend (σ : K) (y : V) : Prop := fr.S y ∧ fr.obs y = σ • c
 
-/-- `x` is a state in `S` whose observable is `a + τ • c` -/
-def At (a : W) (τ : K) (x : V) : Prop := fr.S x ∧ fr.obs x = a + τ • c
+/-- `x` is a proper state whose observable is `a + τ • c` -/
+def At (a : W) (τ : K) (x : V) : Prop := fr.P x ∧ fr.obs x = a + τ • c
 
 variable {fr c}
 
@@ -78,9 +89,9 @@ theorem Tend.smul {σ : K} {y : V} (s : K) (h : Tend fr c σ y) : Tend fr c (s *
 
 theorem At.add {a : W} {τ σ : K} {x y : V} (hx : At fr c a τ x) (hy : Tend fr c σ y) :
     At fr c a (τ + σ) (x + y) :=
-  ⟨fr.add_mem hx.1 hy.1, by rw [fr.obs_add hx.1 hy.1, hx.2, hy.2, add_smul, add_assoc]⟩
+  ⟨fr.P_add hx.1 hy.1, by rw [fr.obs_add (fr.P_S hx.1) hy.1, hx.2, hy.2, add_smul, add_assoc]⟩
 
-theorem At.self {x : V} (hx : fr.S x) : At fr c (fr.obs x) 0 x := ⟨hx, by simp⟩
+theorem At.self {x : V} (hx : fr.P x) : At fr c (fr.obs x) 0 x := ⟨hx, by simp⟩
 
 variable (fr c)
 
@@ -88,23 +99,23 @@ variable (fr c)
  implicit tendency in `S` with observable `0`, `G_inv` maps `S → S` and passes the observable
  through -/
 structure Respects (e : ImEx K V) : Prop where
-  F_tend : ∀ x, fr.S x → Tend fr c 1 (e.F x)
-  G_tend : ∀ x, fr.S x → Tend fr c 0 (e.G x)
-  Ginv_mem : ∀ x η, fr.S x → fr.S (e.Ginv x η)
-  Ginv_obs : ∀ x η, fr.S x → fr.obs (e.Ginv x η) = fr.obs x
+  F_tend : ∀ x, fr.P x → Tend fr c 1 (e.F x)
+  G_tend : ∀ x, fr.P x → Tend fr c 0 (e.G x)
+  Ginv_mem : ∀ x η, fr.P x → fr.P (e.Ginv x η)
+  Ginv_obs : ∀ x η, fr.P x → fr.obs (e.Ginv x η) = fr.obs x
 
 variable {fr c}
 
 /-- why `G_inv` passes a quantity through whose implicit tendency vanishes: if
  `y = G_inv x η` solves `y − η·G y = x` then `obs y = obs x` -/
 theorem Ginv_obs_of_resolvent (e : ImEx K V) (η : K)
-    (hG : ∀ x, fr.S x → Tend fr c 0 (e.G x)) (hmem : ∀ x, fr.S x → fr.S (e.Ginv x η))
-    (hres : ∀ x, fr.S x → e.Ginv x η + (-η) • e.G (e.Ginv x η) = x) (x : V) (hx : fr.S x) :
+    (hG : ∀ x, fr.P x → Tend fr c 0 (e.G x)) (hmem : ∀ x, fr.P x → fr.P (e.Ginv x η))
+    (hres : ∀ x, fr.P x → e.Ginv x η + (-η) • e.G (e.Ginv x η) = x) (x : V) (hx : fr.P x) :
     fr.obs (e.Ginv x η) = fr.obs x := by
   have hy := hmem x hx
   have hg := hG _ hy
   have h := congrArg fr.obs (hres x hx)
-  rw [fr.obs_add hy (fr.smul_mem _ hg.1), fr.obs_smul _ hg.1, hg.2] at h
+  rw [fr.obs_add (fr.P_S hy) (fr.smul_mem _ hg.1), fr.obs_smul _ hg.1, hg.2] at h
   simpa using h
 
 namespace Respects
@@ -139,7 +150,7 @@ theorem cnrk2_at (h2 : (1 + 1 : K) ≠ 0) {a : W} {τ : K} (dt : K) {u : V} (hu 
 
 /-- `semi_implicit_leapfrog`: the new pair is `(current, future)` with the clock of `future`
  two steps after that of `previous` -/
-theorem leapfrog_at {a : W} {τ : K} (dt α : K) {p q : V} (hp : At fr c a τ p) (hq : fr.S q) :
+theorem leapfrog_at {a : W} {τ : K} (dt α : K) {p q : V} (hp : At fr c a τ p) (hq : fr.P q) :
     (leapfrog e dt α (p, q)).1 = q ∧
     At fr c a (τ + (1 + 1) * dt) (leapfrog e dt α (p, q)).2 := by
   refine ⟨rfl, ?_⟩
@@ -227,7 +238,7 @@ theorem wsum_tend (nz : K → Bool) (σ : K) (row : List K) (fs : List V)
 
 /-- every stage value of `imex_runge_kutta` lies in `S`, every `F(Y_i)` is a tendency of rate one
  and every `G(Y_i)` of rate zero -/
-theorem stages_tend (nz : K → Bool) (dt : K) {y0 : V} (hy : fr.S y0) :
+theorem stages_tend (nz : K → Bool) (dt : K) {y0 : V} (hy : fr.P y0) :
     ∀ (tex tim : List (List K)) (fs gs : List V),
       (∀ f ∈ fs, Tend fr c 1 f) → (∀ g ∈ gs, Tend fr c 0 g) →
       (∀ f ∈ (stages nz e dt y0 tex tim fs gs).1, Tend fr c 1 f) ∧
@@ -242,9 +253,9 @@ theorem stages_tend (nz : K → Bool) (dt : K) {y0 : V} (hy : fr.S y0) :
     | nil => simp only [stages]; exact ⟨hf, hg, by simp⟩
     | cons rim tim =>
       simp only [stages]
-      have hY : fr.S (e.Ginv (y0 + dt • wsum nz rex fs + dt • wsum nz rim gs)
+      have hY : fr.P (e.Ginv (y0 + dt • wsum nz rex fs + dt • wsum nz rim gs)
           (dt * rim.getD fs.length 0)) :=
-        R.Ginv_mem _ _ (fr.add_mem (fr.add_mem hy (fr.smul_mem _ (wsum_tend nz 1 rex fs hf).1))
+        R.Ginv_mem _ _ (fr.P_add (fr.P_add hy (fr.smul_mem _ (wsum_tend nz 1 rex fs hf).1))
           (fr.smul_mem _ (wsum_tend nz 0 rim gs hg).1))
       obtain ⟨h1, h2, h3⟩ := ih tim (fs ++ [e.F _]) (gs ++ [e.G _])
         (by
@@ -283,7 +294,61 @@ theorem imexRK_at (nz : K → Bool) {a : W} {τ : K} (dt : K) (t : Tableau K) (s
   · cases hs; exact R.imexRKStep_at nz dt t hu
   · cases hs
 
+/-- **every one-state integrator**: a defined step maps proper states to proper states and adds
+ `(dt · adv) • c` to the observable -/
+theorem scheme_at (h2 : (1 + 1 : K) ≠ 0) (sch : Scheme K) {a : W} {τ : K} (dt : K) (step : V → V)
+    (hs : sch.step e dt = some step) {u : V} (hu : At fr c a τ u) :
+    At fr c a (τ + dt * sch.adv) (step u) := by
+  cases sch with
+  | bfe => cases hs; exact (R.bfe_at dt hu).congr (by simp [Scheme.adv])
+  | cnrk2 => cases hs; exact (R.cnrk2_at h2 dt hu).congr (by simp [Scheme.adv])
+  | lsrk αs βs γs => exact R.lsrk_at dt αs βs γs step hs hu
+  | tableau nz t => exact R.imexRK_at nz dt t step hs hu
+
 end Respects
+
+/-! ### filters -/
+
+/-- a state filter that maps proper states to proper states and leaves the observable alone -/
+def FilterOk (fr : Frame K V W) (g : V → V) : Prop :=
+  ∀ x, fr.P x → fr.P (g x) ∧ fr.obs (g x) = fr.obs x
+
+theorem FilterOk.at {g : V → V} (hg : FilterOk fr g) {a : W} {τ : K} {x : V}
+    (hx : At fr c a τ x) : At fr c a τ (g x) :=
+  ⟨(hg x hx.1).1, by rw [(hg x hx.1).2, hx.2]⟩
+
+/-- the invariant of a leapfrog pair `(previous, current)`: both proper, clocks one step apart -/
+def AtPair (fr : Frame K V W) (c : W) (a : W) (dt τ : K) (u : V × V) : Prop :=
+  At fr c a (τ - dt) u.1 ∧ At fr c a τ u.2
+
+theorem Respects.leapfrog_atPair {e : ImEx K V} (R : Respects fr c e) {a : W} {τ : K} (dt α : K)
+    {u : V × V} (hu : AtPair fr c a dt τ u) :
+    AtPair fr c a dt (τ + dt) (leapfrog e dt α u) := by
+  obtain ⟨h1, h2⟩ := R.leapfrog_at dt α hu.1 hu.2.1
+  refine ⟨?_, h2.congr (by ring)⟩
+  rw [show (leapfrog e dt α u).1 = u.2 from h1]
+  exact hu.2.congr (by ring)
+
+/-- `leapfrog_step_filter(f)` -/
+theorem leapfrogStepFilter_atPair {g : V → V} (hg : FilterOk fr g) {a : W} {dt τ : K}
+    (u : V × V) {uNext : V × V} (hn : AtPair fr c a dt τ uNext) :
+    AtPair fr c a dt τ (Filters.leapfrogStepFilter g u uNext) :=
+  ⟨hn.1, hg.at hn.2⟩
+
+/-- `robert_asselin_leapfrog_filter(r)`: the smoothed `current` keeps its clock because the three
+ clocks are in arithmetic progression; conserved quantities (`c = 0`) are untouched -/
+theorem robertAsselin_atPair (r : K) {a : W} {dt τ : K} {u uNext : V × V}
+    (hu : AtPair fr c a dt τ u) (hn : AtPair fr c a dt (τ + dt) uNext) :
+    AtPair fr c a dt (τ + dt) (robertAsselin r u uNext) := by
+  obtain ⟨⟨hp, hpo⟩, ⟨hq, hqo⟩⟩ := hu
+  obtain ⟨_, ⟨hf, hfo⟩⟩ := hn
+  refine ⟨⟨?_, ?_⟩, ⟨hf, hfo⟩⟩
+  · exact fr.P_add (fr.P_smul _ hq) (fr.smul_mem _ (fr.add_mem (fr.P_S hp) (fr.P_S hf)))
+  · show fr.obs ((1 - (1 + 1) * r) • u.2 + r • (u.1 + uNext.2)) = _
+    rw [fr.obs_add (fr.smul_mem _ (fr.P_S hq)) (fr.smul_mem _ (fr.add_mem (fr.P_S hp) (fr.P_S hf))),
+      fr.obs_smul _ (fr.P_S hq), fr.obs_smul _ (fr.add_mem (fr.P_S hp) (fr.P_S hf)),
+      fr.obs_add (fr.P_S hp) (fr.P_S hf), hpo, hqo, hfo]
+    module
 end
 
 /-! ## histories: any list of steps and filters -/
@@ -316,21 +381,21 @@ theorem stepWithFilters_inv (J : K → U → Prop) (d : K) (step : U → U) (fil
 theorem run_inv (J : K → U → Prop) :
     ∀ (steps : List (K × (U → U) × List (U → U → U))),
       (∀ st ∈ steps, StepOk J st.1 st.2.1 st.2.2) → ∀ (τ : K) (u : U), J τ u →
-      J (τ + (steps.map (·.1)).sum) (run (steps.map (·.2)) u) := by
+      J (τ + (steps.map (·.1)).sum) (runSteps (steps.map (·.2)) u) := by
   intro steps
   induction steps with
-  | nil => intro _ τ u hu; simpa [run] using hu
+  | nil => intro _ τ u hu; simpa [runSteps] using hu
   | cons st steps ih =>
     intro hs τ u hu
     have h1 := stepWithFilters_inv J st.1 st.2.1 st.2.2 (hs st List.mem_cons_self) τ u hu
     have := ih (fun s hs' => hs s (List.mem_cons_of_mem _ hs')) _ _ h1
-    simp only [List.map_cons, List.sum_cons, run, List.foldl_cons] at this ⊢
+    simp only [List.map_cons, List.sum_cons, runSteps, List.foldl_cons] at this ⊢
     rw [← add_assoc]; exact this
 
 /-- `k` steps of the same filtered step -/
 theorem run_replicate_inv (J : K → U → Prop) (d : K) (step : U → U) (filters : List (U → U → U))
     (h : StepOk J d step filters) (k : Nat) (τ : K) (u : U) (hu : J τ u) :
-    J (τ + k * d) (run (List.replicate k (step, filters)) u) := by
+    J (τ + k * d) (runSteps (List.replicate k (step, filters)) u) := by
   have := run_inv J (List.replicate k (d, step, filters))
     (fun st hst => by rw [List.eq_of_mem_replicate hst]; exact h) τ u hu
   simpa [List.map_replicate, List.sum_replicate, nsmul_eq_mul] using this
